@@ -697,6 +697,74 @@ def in_loop(body, bb):
     return any(bb in blocks for h, blocks in natural_loops(body))
 
 
+def network_cut_flow(ctx, g):
+    """network_cut (which face boundary the glued face is cut along): source and sink are two fresh vertex numbers above every skeleton vertex;
+    the cut is the minimum vertex cut of network_edges(.., source, sink) between them; the marked chambers are the (1, 2)-orbits (the vertices)
+    of cut_with_insides(cut, reps, ds, d); the special chambers are the (0, 1)-orbit - the face - of op(3, d), the PARTNER of the glue face
+    (with the glue face itself every cut that touches the partner becomes a chord and is thrown away, depending on the numbering); the walk
+    starts at a marked chamber whose 0-neighbour is not marked and gets (ds, start, marked, special) in this order."""
+    ctx.clauses.append("network_cut: fresh source / sink, marked = vertices of the cut with its inside, special = partner face op(3, d), start at the rim of the marked set (T4 dataflow)")
+    b = ctx.body(M + "network_cut")
+    ctx.scan(ctx.facts.with_closures(b.name))
+    ds, d = ("param", 1, b.debug.get(1, "")), ("param", 2, b.debug.get(2, ""))
+    bad = None
+    cp = [[unov_deep(strip(norm(b.origin(x), g))) for x in t["args"]] for bi, t in b.calls(exact=M + "cut_pairs_in_order")]
+    if len(cp) != 1:
+        bad = "%d calls of cut_pairs_in_order" % len(cp)
+    else:
+        a = cp[0]
+        def through(t, names):
+            t = strip(t)
+            while t[0] == "call" and any(t[1].endswith(n) for n in names):
+                t = strip(t[2][0])
+            return t
+        sp = through(a[3], ("Iterator::collect", "IntoIterator::into_iter", "::iter", "Iterator::cloned", "Iterator::copied"))
+        partner = ("call", "std::option::Option::<T>::unwrap", (("call", "dsets::DSet::op", (ds, ("int", 3), d)),))
+        if not (is_call(sp, "DSet::orbit") and strip(sp[2][0]) == ds and strip(sp[2][1]) == ("agg", "array", (("int", 0), ("int", 1))) and strip(sp[2][2]) == partner):
+            bad = "the special chambers are not the face orbit([0, 1], op(3, d)) of the partner of the glue face: %s" % show(sp, 2)[:80]
+        mk = strip(a[2])
+        fm = [y for y in subterms(mk) if is_call(y, "Iterator::flat_map")]
+        cwi = [y for y in subterms(mk) if is_call(y, "cut_with_insides")]
+        if not bad and (len(fm) != 1 or len(cwi) != 1 or not is_call(mk, "Iterator::collect")):
+            bad = "the marked chambers are not collected from cut_with_insides(..) through one flat_map"
+        elif not bad:
+            cl = strip(fm[0][2][1])
+            body_ = None
+            if cl[0] == "agg" and cl[1].startswith("closure:"):
+                body_ = strip(norm(ctx.facts.bodies[cl[1][len("closure:"):]].local_origin(0), g))
+            if not (body_ is not None and is_call(body_, "DSet::orbit") and strip(body_[2][1]) == ("agg", "array", (("int", 1), ("int", 2))) and strip(body_[2][2])[0] == "param"):
+                bad = "the marked chambers are not the (1, 2)-orbits (vertices) of the chambers of the cut"
+            ca = [strip(x) for x in cwi[0][2]]
+            sk = ("call", M + "make_skeleton", (ds,))
+            mvc = ca[0]
+            if not bad and not (is_call(mvc, "min_vertex_cut_undirected") and ca[1] == ("field", sk, "1") and ca[2] == ds and ca[3] == d):
+                bad = "cut_with_insides does not get (minimum vertex cut, reps of the skeleton, ds, d)"
+            elif not bad:
+                ne, so, si = [strip(x) for x in mvc[2]]
+                mx = [y for y in subterms(so) if is_call(y, "Iterator::max")]
+                src_ok = so[0] == "binop" and so[1] == "Add" and eval_int(so[3]) == 1 and mx and contains(mx[0], lambda y: y == ("field", sk, "0"))
+                if not (src_ok and si == ("binop", "Add", so, ("int", 1))):
+                    bad = "source / sink are not max(skeleton vertex numbers) + 1 and source + 1"
+                elif not (is_call(ne, "network_edges") and [strip(x) for x in ne[2]] == [ds, d, ("param", 3, b.debug.get(3, "")), ("field", sk, "0"), ("field", sk, "2"), so, si]):
+                    bad = "network_edges does not get (ds, d, edge_mode, vertex numbers, skeleton edges, source, sink)"
+        st = strip(a[1])
+        fd = [y for y in subterms(st) if is_call(y, "Iterator::find")]
+        if not bad and len(fd) != 1:
+            bad = "the start chamber is not found by one search through the marked chambers"
+        elif not bad:
+            cl = strip(fd[0][2][1])
+            body_ = strip(norm(ctx.facts.bodies[cl[1][len("closure:"):]].local_origin(0), g)) if cl[0] == "agg" and cl[1].startswith("closure:") else None
+            okst = body_ is not None and body_[0] == "unop" and body_[1] == "Not" and is_call(strip(body_[2]), "::contains") and \
+                is_call(strip(strip(body_[2])[2][1]), "Option::<T>::unwrap") and is_call(strip(strip(strip(body_[2])[2][1])[2][0]), "DSet::op") and \
+                eval_int(strip(strip(strip(strip(body_[2])[2][1])[2][0])[2][1])) == 0
+            src_marked = contains(fd[0][2][0], lambda y: y == mk) or any(strip(norm(b.local_origin(y[1]), g)) and contains(strip(norm(b.local_origin(y[1]), g)), lambda z: z == mk)
+                                                                        for y in subterms(fd[0][2][0]) if isinstance(y, tuple) and y and y[0] == "local")
+            if not okst:
+                bad = "the start chamber is not a marked chamber whose 0-neighbour is unmarked (`!marked.contains(op(0, e))`)"
+    ctx.ob("T4-network-cut-flow", b.name, "source, sink / cut / marked / special / start", "ok" if not bad else "violation",
+           "fresh source and sink; marked = (1,2)-orbits of cut_with_insides(min cut); special = orbit([0,1], op(3, d)); start on the rim" if not bad else bad)
+
+
 def run(ctx):
     g = ctx.facts.getters()
     b = ctx.body(M + "simplify")
@@ -894,6 +962,7 @@ def run(ctx):
     grow_shape(ctx, g)
     collapse_shape(ctx, g)
     collapse_sites(ctx, g)
+    network_cut_flow(ctx, g)
     ctx.floor("chamber-indexed tables in collapse / make_skeleton", chamber_tables(ctx, "T4-chamber-table", ctx.body(M + "collapse"), g) + chamber_tables(ctx, "T4-chamber-table", ctx.body(M + "make_skeleton"), g), 3)
     for bi, t in mi:
         every_iteration_reaches(ctx, "T3-merge-every-step", ma, bi, "step-loop->op(&ds)", "some step of merge_all's table is skipped")
